@@ -1,6 +1,11 @@
 import ThermoVerif.Model.Network
 /-
 Lemmas about the docking model used by `Props/C18.lean`.
+
+The per-side invariant is stated for a *tracked* set of objects `P : Nat → Prop`.  The full
+invariant is `P = All` (every id: streams and placeholder objects alike).  A smaller `P` is
+needed only between the creation of a placeholder object (`newMissing`: its pointer already
+names the unit, but no port holds it yet) and its placement in the port list.
 -/
 namespace ThermoVerif.Network
 
@@ -35,40 +40,67 @@ theorem split3 (l : List Nat) {a b : Nat} (h : a ≤ b) :
   rw [this, List.append_assoc, List.take_append_drop, List.take_append_drop]
 
 
+/-! ## Field access through `setLst` / `setLoc` -/
+
+@[simp] theorem setLst_loc (sd : Side) (u : Nat) (L : List Nat) : (sd.setLst u L).loc = sd.loc := rfl
+@[simp] theorem setLst_fixed (sd : Side) (u : Nat) (L : List Nat) : (sd.setLst u L).fixed = sd.fixed := rfl
+@[simp] theorem setLst_size (sd : Side) (u : Nat) (L : List Nat) : (sd.setLst u L).size = sd.size := rfl
+@[simp] theorem setLst_lst_same (sd : Side) (u : Nat) (L : List Nat) : (sd.setLst u L).lst u = L := by
+  simp [Side.setLst]
+theorem setLst_lst_ne (sd : Side) {u v : Nat} (L : List Nat) (h : v ≠ u) :
+    (sd.setLst u L).lst v = sd.lst v := by
+  simp [Side.setLst, h]
+
 /-! ## Per-side invariant -/
 
-/-- Count formulation of "listed iff docked, and at most once", at unit `u`. -/
-def CntAt (w : SW) (u : Nat) : Prop :=
-  ∀ s, w.real s = true → (w.sd.lst u).count s = if w.sd.loc s = some u then 1 else 0
+/-- The full tracked set: every object, stream or placeholder. -/
+abbrev All : Nat → Prop := fun _ => True
+
+/-- Count formulation of "listed iff docked, and at most once", at unit `u`, for the objects in `P`. -/
+def CntAt (P : Nat → Prop) (w : SW) (u : Nat) : Prop :=
+  ∀ s, P s → (w.sd.lst u).count s = if w.sd.loc s = some u then 1 else 0
+
+theorem CntAt.mono {P Q : Nat → Prop} {w : SW} {u : Nat} (h : CntAt P w u) (hq : ∀ t, Q t → P t) :
+    CntAt Q w u := fun s hs => h s (hq s hs)
 
 /-- Allocation discipline on one side (holds in all intermediate states). -/
 structure Sc (nU : Nat) (w : SW) : Prop where
   lst_lt : ∀ u s, s ∈ w.sd.lst u → s < w.next
   loc_none : ∀ s, w.next ≤ s → w.sd.loc s = none
-  not_real : ∀ s, w.next ≤ s → w.real s = false
   lst_nil : ∀ u, nU ≤ u → w.sd.lst u = []
   fixed_false : ∀ u, nU ≤ u → w.sd.fixed u = false
   loc_lt : ∀ s u, w.sd.loc s = some u → u < nU
 
 def Fx (w : SW) : Prop := ∀ u, w.sd.fixed u = true → (w.sd.lst u).length = w.sd.size u
 
-structure SInv (nU : Nat) (w : SW) : Prop where
-  cnt : ∀ u, CntAt w u
+structure SInv (nU : Nat) (P : Nat → Prop) (w : SW) : Prop where
+  cnt : ∀ u, CntAt P w u
   fx : Fx w
   sc : Sc nU w
+
+theorem SInv.mono {nU : Nat} {P Q : Nat → Prop} {w : SW} (h : SInv nU P w) (hq : ∀ t, Q t → P t) :
+    SInv nU Q w := ⟨fun u => (h.cnt u).mono hq, h.fx, h.sc⟩
+
+/-- Objects that are not allocated yet are consistent at every unit: listed nowhere, docked nowhere. -/
+theorem Sc.cnt_ge {nU : Nat} {w : SW} (h : Sc nU w) {t : Nat} (ht : w.next ≤ t) (v : Nat) :
+    (w.sd.lst v).count t = if w.sd.loc t = some v then 1 else 0 := by
+  have h1 : t ∉ w.sd.lst v := fun hm => by have := h.lst_lt v t hm; omega
+  rw [List.count_eq_zero.mpr h1, h.loc_none t ht]; simp
+
+theorem Sc.not_mem_ge {nU : Nat} {w : SW} (h : Sc nU w) {t : Nat} (ht : w.next ≤ t) (v : Nat) :
+    t ∉ w.sd.lst v := fun hm => by have := h.lst_lt v t hm; omega
 
 /-- Bookkeeping that no list operation changes. -/
 structure Ext (w w' : SW) : Prop where
   pre : w'.pre = true → w.pre = true
-  real : w'.real = w.real
   fixed : w'.sd.fixed = w.sd.fixed
   size : w'.sd.size = w.sd.size
   next : w.next ≤ w'.next
 
-theorem Ext.refl (w : SW) : Ext w w := ⟨id, rfl, rfl, rfl, Nat.le_refl _⟩
+theorem Ext.refl (w : SW) : Ext w w := ⟨id, rfl, rfl, Nat.le_refl _⟩
 
 theorem Ext.trans {a b c : SW} (h1 : Ext a b) (h2 : Ext b c) : Ext a c :=
-  ⟨fun h => h1.pre (h2.pre h), h2.real.trans h1.real, h2.fixed.trans h1.fixed,
+  ⟨fun h => h1.pre (h2.pre h), h2.fixed.trans h1.fixed,
    h2.size.trans h1.size, Nat.le_trans h1.next h2.next⟩
 
 /-! ## `removeFrom` and `redock` -/
@@ -80,19 +112,20 @@ structure RedockSpec (nU : Nat) (w : SW) (u s : Nat) (w' : SW) : Prop where
   lst_u : w'.sd.lst u = w.sd.lst u
   len : ∀ v, (w'.sd.lst v).length = (w.sd.lst v).length
   loc_s : w'.sd.loc s = some u
-  loc_other : ∀ t, w.real t = true → t ≠ s → w'.sd.loc t = w.sd.loc t
-  cntOff : (∀ v, v ≠ u → CntAt w v) → (∀ v, v ≠ u → CntAt w' v)
+  loc_other : ∀ t, t < w.next → t ≠ s → w'.sd.loc t = w.sd.loc t
+  /-- objects created on the way (the placeholder that fills the port `s` left) are docked elsewhere -/
+  loc_new : ∀ t, w.next ≤ t → w'.sd.loc t ≠ some u
+  cntOff : ∀ P : Nat → Prop, (∀ v, v ≠ u → CntAt P w v) → (∀ v, v ≠ u → CntAt P w' v)
 
 theorem dock_spec {nU : Nat} {w : SW} {u s : Nat} (hsc : Sc nU w) (hs : s < w.next)
     (hu : u < nU) (hns : ∀ v, v ≠ u → w.sd.loc s = some v → s ∉ w.sd.lst v) :
     RedockSpec nU w u s (w.dock u s) where
-  ext := ⟨id, rfl, rfl, rfl, Nat.le_refl _⟩
+  ext := ⟨id, rfl, rfl, Nat.le_refl _⟩
   pre_eq := rfl
   sc := by
     constructor <;> simp only [SW.dock, Side.setLoc]
     · exact hsc.lst_lt
     · intro x hx; have := hsc.loc_none x hx; grind
-    · exact hsc.not_real
     · exact hsc.lst_nil
     · exact hsc.fixed_false
     · intro x v; have := hsc.loc_lt x v; grind
@@ -100,8 +133,13 @@ theorem dock_spec {nU : Nat} {w : SW} {u s : Nat} (hsc : Sc nU w) (hs : s < w.ne
   len := fun _ => rfl
   loc_s := by simp [SW.dock, Side.setLoc]
   loc_other := by intro t _ hne; simp [SW.dock, Side.setLoc, hne]
+  loc_new := by
+    intro t ht
+    have : t ≠ s := by omega
+    have := hsc.loc_none t ht
+    simp [SW.dock, Side.setLoc, *]
   cntOff := by
-    intro H v hv t ht
+    intro P H v hv t ht
     have := H v hv t ht
     simp only [SW.dock, Side.setLoc]
     by_cases hts : t = s
@@ -115,12 +153,15 @@ structure RemoveSpec (nU : Nat) (w : SW) (v s : Nat) (w' : SW) : Prop where
   ext : Ext w w'
   pre_eq : w'.pre = w.pre
   sc : Sc nU w'
+  next_eq : w'.next = w.next + 1
   lst_other : ∀ x, x ≠ v → w'.sd.lst x = w.sd.lst x
   len : ∀ x, (w'.sd.lst x).length = (w.sd.lst x).length
   loc_s : w'.sd.loc s = none
-  loc_other : ∀ t, t < w.next → t ≠ s → w'.sd.loc t = w.sd.loc t
-  cnt_other : ∀ t, w.real t = true → t ≠ s → (w'.sd.lst v).count t = (w.sd.lst v).count t
+  loc_other : ∀ t, t ≠ w.next → t ≠ s → w'.sd.loc t = w.sd.loc t
+  loc_new : w'.sd.loc w.next = some v
+  cnt_other : ∀ t, t ≠ w.next → t ≠ s → (w'.sd.lst v).count t = (w.sd.lst v).count t
   cnt_s : (w'.sd.lst v).count s = (w.sd.lst v).count s - 1
+  cnt_new : (w'.sd.lst v).count w.next = 1
   s_lt : s < w.next
 
 theorem removeFrom_spec {nU : Nat} {w w' : SW} {v s : Nat} (hsc : Sc nU w)
@@ -135,8 +176,9 @@ theorem removeFrom_spec {nU : Nat} {w w' : SW} {v s : Nat} (hsc : Sc nU w)
     simp only [Side.setLoc] at hmem hil
     have hslt := hsc.lst_lt v s hmem
     have hcnt := count_set_idxOf hi
+    have hnew : w.next ∉ w.sd.lst v := hsc.not_mem_ge (Nat.le_refl _) v
     constructor
-    · exact ⟨id, rfl, rfl, rfl, Nat.le_succ _⟩
+    · exact ⟨id, rfl, rfl, Nat.le_succ _⟩
     · rfl
     · constructor <;> simp only [SW.undock, Side.setLoc, Side.setLst]
       · intro x t
@@ -144,22 +186,28 @@ theorem removeFrom_spec {nU : Nat} {w w' : SW} {v s : Nat} (hsc : Sc nU w)
         have := @List.mem_or_eq_of_mem_set _ (w.sd.lst v) i t w.next
         grind
       · intro x hx; have := hsc.loc_none x; grind
-      · intro x hx; exact hsc.not_real x (by omega)
       · intro x hx; have := hsc.lst_nil x hx; grind
       · exact hsc.fixed_false
       · intro x y; have := hsc.loc_lt x y; grind
+    · rfl
     · intro x hx; simp [SW.undock, Side.setLoc, Side.setLst, hx]
     · intro x; simp only [SW.undock, Side.setLoc, Side.setLst]; split <;> simp_all
     · simp [SW.undock, Side.setLoc, Side.setLst]
     · intro t ht hts; simp only [SW.undock, Side.setLoc, Side.setLst]; grind
+    · have : w.next ≠ s := by omega
+      simp [SW.undock, Side.setLoc, Side.setLst, this]
     · intro t ht hts
-      have := hsc.not_real w.next (Nat.le_refl _)
       simp only [SW.undock, Side.setLoc, Side.setLst] at hcnt ⊢
       simp only [if_true, hcnt]
       grind
     · simp only [SW.undock, Side.setLoc, Side.setLst] at hcnt ⊢
       simp only [if_true, hcnt]
       grind
+    · have h0 := List.count_eq_zero.mpr hnew
+      simp only [SW.undock, Side.setLoc, Side.setLst] at hcnt ⊢
+      simp only [if_true, hcnt]
+      have : s ≠ w.next := by omega
+      simp [this, h0]
     · exact hslt
 
 theorem redock_spec {nU : Nat} {w w' : SW} {u s : Nat} (hsc : Sc nU w) (hs : s < w.next)
@@ -174,7 +222,8 @@ theorem redock_spec {nU : Nat} {w w' : SW} {u s : Nat} (hsc : Sc nU w) (hs : s <
     split at h
     · rename_i hvu
       cases h; subst hvu
-      exact ⟨Ext.refl _, rfl, hsc, rfl, fun _ => rfl, hv, fun _ _ _ => rfl, id⟩
+      exact ⟨Ext.refl _, rfl, hsc, rfl, fun _ => rfl, hv, fun _ _ _ => rfl,
+        fun t ht => by rw [hsc.loc_none t ht]; simp, fun _ => id⟩
     · rename_i hvu
       split at h
       · rename_i hmem
@@ -186,26 +235,37 @@ theorem redock_spec {nU : Nat} {w w' : SW} {u s : Nat} (hsc : Sc nU w) (hs : s <
           have R := removeFrom_spec hsc (hsc.loc_lt s v hv) hr
           have hs1 : s < w1.next := Nat.lt_of_lt_of_le hs R.ext.next
           have D := dock_spec (u := u) (s := s) R.sc hs1 hu (by simp [R.loc_s])
-          refine ⟨R.ext.trans D.ext, D.pre_eq.trans R.pre_eq, D.sc, ?_, ?_, D.loc_s, ?_, ?_⟩
+          refine ⟨R.ext.trans D.ext, D.pre_eq.trans R.pre_eq, D.sc, ?_, ?_, D.loc_s, ?_, ?_, ?_⟩
           · rw [D.lst_u]; exact R.lst_other u (Ne.symm hvu)
           · intro x; rw [D.len, R.len]
           · intro t ht hts
-            rw [D.loc_other t (by rw [R.ext.real]; exact ht) hts]
-            exact R.loc_other t (by have := hsc.not_real t; grind) hts
-          · intro H
+            rw [D.loc_other t (by have := R.ext.next; omega) hts]
+            exact R.loc_other t (by omega) hts
+          · intro t ht
+            by_cases htn : t = w.next
+            · subst htn
+              rw [D.loc_other _ (by rw [R.next_eq]; omega) (by omega), R.loc_new]
+              simp; exact hvu
+            · exact D.loc_new t (by rw [R.next_eq]; omega)
+          · intro P H
             apply D.cntOff
             intro x hx t ht
-            rw [R.ext.real] at ht
             have Hx := H x hx t ht
-            by_cases hxv : x = v
-            · subst hxv
-              by_cases hts : t = s
-              · subst hts; rw [R.cnt_s, R.loc_s, Hx]; simp [hv]
-              · rw [R.cnt_other t ht hts, R.loc_other t (by have := hsc.not_real t; grind) hts, Hx]
-            · rw [R.lst_other x hxv, Hx]
-              by_cases hts : t = s
-              · subst hts; simp [R.loc_s, hv]; exact fun h => hxv h.symm
-              · rw [R.loc_other t (by have := hsc.not_real t; grind) hts]
+            by_cases htn : t = w.next
+            · subst htn
+              by_cases hxv : x = v
+              · subst hxv; rw [R.cnt_new, R.loc_new]; simp
+              · rw [R.lst_other x hxv, R.loc_new, List.count_eq_zero.mpr (hsc.not_mem_ge (Nat.le_refl _) x)]
+                simp; exact fun h => hxv h.symm
+            · by_cases hxv : x = v
+              · subst hxv
+                by_cases hts : t = s
+                · subst hts; rw [R.cnt_s, R.loc_s, Hx]; simp [hv]
+                · rw [R.cnt_other t htn hts, R.loc_other t htn hts, Hx]
+              · rw [R.lst_other x hxv, Hx]
+                by_cases hts : t = s
+                · subst hts; simp [R.loc_s, hv]; exact fun h => hxv h.symm
+                · rw [R.loc_other t htn hts]
       · rename_i hmem
         cases h
         exact dock_spec hsc hs hu (by intro x _ hx; rw [hv] at hx; cases hx; exact hmem)
@@ -215,39 +275,38 @@ theorem removeFrom_ext {w w' : SW} {v s : Nat} (h : w.removeFrom v s = .ok w') :
   simp only [SW.removeFrom, SW.newMissing] at h
   split at h
   · cases h
-  · cases h; exact ⟨⟨id, rfl, rfl, rfl, Nat.le_succ _⟩, rfl⟩
+  · cases h; exact ⟨⟨id, rfl, rfl, Nat.le_succ _⟩, rfl⟩
 
 theorem redock_ext {w w' : SW} {u s : Nat} (h : w.redock u s = .ok w') :
     Ext w w' ∧ w'.pre = w.pre := by
   unfold SW.redock at h
   split at h
-  · cases h; exact ⟨⟨id, rfl, rfl, rfl, Nat.le_refl _⟩, rfl⟩
+  · cases h; exact ⟨⟨id, rfl, rfl, Nat.le_refl _⟩, rfl⟩
   · split at h
     · cases h; exact ⟨Ext.refl _, rfl⟩
     · split at h
       · obtain ⟨w1, hr, h⟩ := bind_ok.mp h
         cases h
         have := removeFrom_ext hr
-        exact ⟨⟨this.1.pre, this.1.real, this.1.fixed, this.1.size, this.1.next⟩, this.2⟩
-      · cases h; exact ⟨⟨id, rfl, rfl, rfl, Nat.le_refl _⟩, rfl⟩
+        exact ⟨⟨this.1.pre, this.1.fixed, this.1.size, this.1.next⟩, this.2⟩
+      · cases h; exact ⟨⟨id, rfl, rfl, Nat.le_refl _⟩, rfl⟩
 
 /-! ## Small frame lemmas -/
 
-theorem Sc.of_eq {nU : Nat} {w w' : SW} (h : Sc nU w) (h1 : w'.sd = w.sd) (h2 : w'.next = w.next)
-    (h3 : w'.real = w.real) : Sc nU w' := by
-  cases w; cases w'; simp only at h1 h2 h3; subst h1 h2 h3
-  exact ⟨h.1, h.2, h.3, h.4, h.5, h.6⟩
+theorem Sc.of_eq {nU : Nat} {w w' : SW} (h : Sc nU w) (h1 : w'.sd = w.sd) (h2 : w'.next = w.next) :
+    Sc nU w' := by
+  cases w; cases w'; simp only at h1 h2; subst h1 h2
+  exact ⟨h.1, h.2, h.3, h.4, h.5⟩
 
-theorem CntAt.of_eq {u : Nat} {w w' : SW} (h : CntAt w u) (h1 : w'.sd = w.sd)
-    (h3 : w'.real = w.real) : CntAt w' u := by
-  cases w; cases w'; simp only at h1 h3; subst h1 h3
+theorem CntAt.of_eq {P : Nat → Prop} {u : Nat} {w w' : SW} (h : CntAt P w u) (h1 : w'.sd = w.sd) :
+    CntAt P w' u := by
+  cases w; cases w'; simp only at h1; subst h1
   exact h
 
 theorem Sc.undock {nU : Nat} {w : SW} (h : Sc nU w) (x : Nat) : Sc nU (w.undock x) := by
   constructor <;> simp only [SW.undock, Side.setLoc]
   · exact h.lst_lt
   · intro y hy; have := h.loc_none y hy; grind
-  · exact h.not_real
   · exact h.lst_nil
   · exact h.fixed_false
   · intro y v; have := h.loc_lt y v; grind
@@ -257,18 +316,17 @@ theorem Sc.setLst {nU : Nat} {w : SW} (h : Sc nU w) {u : Nat} {L : List Nat} (hu
   constructor <;> simp only [Side.setLst]
   · intro v x; have := h.lst_lt v x; grind
   · exact h.loc_none
-  · exact h.not_real
   · intro v hv; have := h.lst_nil v hv; grind
   · exact h.fixed_false
   · exact h.loc_lt
 
-theorem SInv.setLst {nU : Nat} {w : SW} {u : Nat} {L : List Nat} (hsc : Sc nU w) (hu : u < nU)
-    (hL : ∀ x ∈ L, x < w.next)
-    (hoff : ∀ v, v ≠ u → CntAt w v)
-    (hcu : ∀ t, w.real t = true → L.count t = if w.sd.loc t = some u then 1 else 0)
+theorem SInv.setLst {nU : Nat} {P : Nat → Prop} {w : SW} {u : Nat} {L : List Nat} (hsc : Sc nU w)
+    (hu : u < nU) (hL : ∀ x ∈ L, x < w.next)
+    (hoff : ∀ v, v ≠ u → CntAt P w v)
+    (hcu : ∀ t, P t → L.count t = if w.sd.loc t = some u then 1 else 0)
     (hfx : ∀ v, v ≠ u → w.sd.fixed v = true → (w.sd.lst v).length = w.sd.size v)
     (hfu : w.sd.fixed u = true → L.length = w.sd.size u) :
-    SInv nU { w with sd := w.sd.setLst u L } := by
+    SInv nU P { w with sd := w.sd.setLst u L } := by
   refine ⟨fun v => ?_, fun v hv => ?_, hsc.setLst hu hL⟩
   · by_cases hvu : v = u
     · subst hvu
@@ -291,11 +349,12 @@ theorem SInv.setLst {nU : Nat} {w : SW} {u : Nat} {L : List Nat} (hsc : Sc nU w)
 
 /-! ## Steps -/
 
-/-- A successful list operation: bookkeeping unchanged, and the invariant is kept provided the
-arguments are in scope (`A`) and the precondition monitor is still on afterwards. -/
+/-- A successful list operation: bookkeeping unchanged, and the full invariant (every object,
+streams and placeholders) is kept provided the arguments are in scope (`A`) and the precondition
+monitor is still on afterwards. -/
 structure Step (nU : Nat) (A : Prop) (w w' : SW) : Prop where
   ext : Ext w w'
-  inv : w'.pre = true → SInv nU w → A → SInv nU w'
+  inv : w'.pre = true → SInv nU All w → A → SInv nU All w'
 
 theorem Step.trans {nU : Nat} {A B : Prop} {a b c : SW} (h1 : Step nU A a b) (h2 : Step nU B b c) :
     Step nU (A ∧ B) a c :=
@@ -304,50 +363,57 @@ theorem Step.trans {nU : Nat} {A B : Prop} {a b c : SW} (h1 : Step nU A a b) (h2
 theorem Step.weaken {nU : Nat} {A B : Prop} {a b : SW} (h1 : Step nU A a b) (h : B → A) :
     Step nU B a b := ⟨h1.ext, fun hp hi hb => h1.inv hp hi (h hb)⟩
 
-theorem setStream_step {nU : Nat} {w w' : SW} {u i s : Nat} (h : w.setStream u i s = .ok w') :
-    Step nU (s < w.next ∧ u < nU) w w' := by
+/-- `seq[i] = s`, for a tracked set `P`: afterwards `s` is tracked too, provided it was consistent
+at every other unit.  (With `P = All` this is the plain step; with `P = (· ≠ m)` and `s = m` a
+placeholder just created for this list it is the placement that completes `m`.) -/
+theorem setStream_core {nU : Nat} {w w' : SW} {u i s : Nat} (P : Nat → Prop)
+    (h : w.setStream u i s = .ok w') :
+    Ext w w' ∧ (w'.pre = true → SInv nU P w → s < w.next → u < nU →
+      (∀ v, v ≠ u → (w.sd.lst v).count s = if w.sd.loc s = some v then 1 else 0) →
+      SInv nU (fun t => P t ∨ t = s) w') := by
   simp only [SW.setStream] at h
   split at h
   · rename_i hi
     obtain ⟨w2, hr, h⟩ := bind_ok.mp h
     cases h
     have E := redock_ext hr
-    have hreal : w2.real = w.real := E.1.real
     have hfixed : w2.sd.fixed = w.sd.fixed := E.1.fixed
     have hsize : w2.sd.size = w.sd.size := E.1.size
     have hnext : w.next ≤ w2.next := E.1.next
-    have hpre : w2.pre = (w.pre && (!w.real s || !(w.sd.lst u).contains s)) := E.2
+    have hpre : w2.pre = (w.pre && !(w.sd.lst u).contains s) := E.2
     clear E
-    refine ⟨⟨fun hp => ?_, hreal, hfixed, hsize, hnext⟩, fun hp hI ⟨hs, hu⟩ => ?_⟩
+    refine ⟨⟨fun hp => ?_, hfixed, hsize, hnext⟩, fun hp hI hs hu hso => ?_⟩
     · have : w2.pre = true := hp
       rw [hpre, Bool.and_eq_true] at this
       exact this.1
     · have hp2 : w2.pre = true := hp
       rw [hpre, Bool.and_eq_true] at hp2
-      have hcond : w.real s = true → s ∉ w.sd.lst u := by
-        have := hp2.2; intro hr; simp [hr] at this; exact this
+      have hcond : s ∉ w.sd.lst u := by
+        have := hp2.2; simpa using this
       have R := fun a b c => redock_spec (nU := nU) (u := u) (s := s) a b c hr
-      replace R := R ((hI.sc.undock (w.sd.lst u)[i]).of_eq rfl rfl rfl) hs hu
+      replace R := R ((hI.sc.undock (w.sd.lst u)[i]).of_eq rfl rfl) hs hu
       have hlu : w2.sd.lst u = w.sd.lst u := R.lst_u
       have hlen : ∀ v, (w2.sd.lst v).length = (w.sd.lst v).length := R.len
       have hloc_s := R.loc_s
-      have hloc_o : ∀ t, w.real t = true → t ≠ s →
+      have hloc_o : ∀ t, t < w.next → t ≠ s →
           w2.sd.loc t = if t = (w.sd.lst u)[i] then none else w.sd.loc t := R.loc_other
+      have hloc_n : ∀ t, w.next ≤ t → w2.sd.loc t ≠ some u := R.loc_new
       -- facts about x
       have hxmem : (w.sd.lst u)[i] ∈ w.sd.lst u := List.getElem_mem hi
-      have hxloc : w.real (w.sd.lst u)[i] = true → w.sd.loc (w.sd.lst u)[i] = some u := by
-        intro hrx
-        have := hI.cnt u _ hrx
-        have := List.count_pos_iff.mpr hxmem
-        grind
-      have hoff : ∀ v, v ≠ u → CntAt w2 v := by
+      have hxs : (w.sd.lst u)[i] ≠ s := fun hx => hcond (hx ▸ hxmem)
+      have hoff : ∀ v, v ≠ u → CntAt (fun t => P t ∨ t = s) w2 v := by
         apply R.cntOff
         intro v hv t ht
-        have ht' : w.real t = true := ht
-        have := hI.cnt v t ht'
         simp only [SW.undock, Side.setLoc]
-        clear hr h R hp
-        grind
+        rcases ht with ht | rfl
+        · have := hI.cnt v t ht
+          have := hI.cnt u t ht
+          have := @List.count_pos_iff _ _ _ t (w.sd.lst u)
+          clear hr h R hp
+          grind
+        · have := hso v hv
+          clear hr h R hp
+          grind
       have hsc2 := R.sc
       clear R hr h hp
       apply SInv.setLst hsc2 hu
@@ -357,17 +423,26 @@ theorem setStream_step {nU : Nat} {w w' : SW} {u i s : Nat} (h : w.setStream u i
         grind
       · exact hoff
       · intro t ht
-        rw [hreal] at ht
         rw [hlu, List.count_set hi]
-        have hc := hI.cnt u t ht
         by_cases hts : t = s
         · subst hts
-          have := hcond ht
-          have := @List.count_eq_zero _ _ _ t (w.sd.lst u)
-          grind
-        · have := hloc_o t ht hts
-          have := hI.cnt u _ ht
-          grind
+          have := List.count_eq_zero.mpr hcond
+          simp only [hloc_s, if_true]
+          have h1 : ((w.sd.lst u)[i] == t) = false := by simpa using hxs
+          simp [this, h1]
+        · have hPt : P t := by rcases ht with ht | ht; exact ht; exact absurd ht hts
+          have hc := hI.cnt u t hPt
+          by_cases htn : t < w.next
+          · have := hloc_o t htn hts
+            have := @List.count_pos_iff _ _ _ t (w.sd.lst u)
+            grind
+          · have htn' : w.next ≤ t := by omega
+            have h0 := List.count_eq_zero.mpr (hI.sc.not_mem_ge htn' u)
+            have := hloc_n t htn'
+            have h1 : ((w.sd.lst u)[i] == t) = false := by
+              simp; intro hx; exact hI.sc.not_mem_ge htn' u (hx ▸ hxmem)
+            have h2 : (s == t) = false := by simp; exact fun h => hts h.symm
+            simp [h0, h1, h2, this]
       · intro v _ hv
         rw [hfixed] at hv
         rw [hlen, hsize]; exact hI.fx v hv
@@ -380,30 +455,32 @@ theorem setStream_step {nU : Nat} {w w' : SW} {u i s : Nat} (h : w.setStream u i
       obtain ⟨w2, hr, h⟩ := bind_ok.mp h
       cases h
       have E := redock_ext hr
-      have hreal : w2.real = w.real := E.1.real
       have hfixed : w2.sd.fixed = w.sd.fixed := E.1.fixed
       have hsize : w2.sd.size = w.sd.size := E.1.size
       have hnext : w.next ≤ w2.next := E.1.next
-      have hpre : w2.pre = (w.pre && (!w.real s || !(w.sd.lst u).contains s)) := E.2
+      have hpre : w2.pre = (w.pre && !(w.sd.lst u).contains s) := E.2
       clear E
-      refine ⟨⟨fun hp => ?_, hreal, hfixed, hsize, hnext⟩, fun hp hI ⟨hs, hu⟩ => ?_⟩
+      refine ⟨⟨fun hp => ?_, hfixed, hsize, hnext⟩, fun hp hI hs hu hso => ?_⟩
       · have : w2.pre = true := hp
         rw [hpre, Bool.and_eq_true] at this
         exact this.1
       · have hp2 : w2.pre = true := hp
         rw [hpre, Bool.and_eq_true] at hp2
-        have hcond : w.real s = true → s ∉ w.sd.lst u := by
-          have := hp2.2; intro hr; simp [hr] at this; exact this
+        have hcond : s ∉ w.sd.lst u := by
+          have := hp2.2; simpa using this
         have R := fun a b c => redock_spec (nU := nU) (u := u) (s := s) a b c hr
-        replace R := R (hI.sc.of_eq rfl rfl rfl) hs hu
+        replace R := R (hI.sc.of_eq rfl rfl) hs hu
         have hlu : w2.sd.lst u = w.sd.lst u := R.lst_u
         have hlen : ∀ v, (w2.sd.lst v).length = (w.sd.lst v).length := R.len
         have hloc_s := R.loc_s
-        have hloc_o : ∀ t, w.real t = true → t ≠ s → w2.sd.loc t = w.sd.loc t := R.loc_other
-        have hoff : ∀ v, v ≠ u → CntAt w2 v := by
+        have hloc_o : ∀ t, t < w.next → t ≠ s → w2.sd.loc t = w.sd.loc t := R.loc_other
+        have hloc_n : ∀ t, w.next ≤ t → w2.sd.loc t ≠ some u := R.loc_new
+        have hoff : ∀ v, v ≠ u → CntAt (fun t => P t ∨ t = s) w2 v := by
           apply R.cntOff
-          intro v hv
-          exact (hI.cnt v).of_eq rfl rfl
+          intro v hv t ht
+          rcases ht with ht | rfl
+          · exact hI.cnt v t ht
+          · exact hso v hv
         have hsc2 := R.sc
         clear R hr h hp
         apply SInv.setLst hsc2 hu
@@ -413,16 +490,21 @@ theorem setStream_step {nU : Nat} {w w' : SW} {u i s : Nat} (h : w.setStream u i
           grind
         · exact hoff
         · intro t ht
-          rw [hreal] at ht
           rw [hlu, List.count_append, List.count_singleton]
-          have hc := hI.cnt u t ht
           by_cases hts : t = s
           · subst hts
-            have := hcond ht
-            have := @List.count_eq_zero _ _ _ t (w.sd.lst u)
-            grind
-          · have := hloc_o t ht hts
-            grind
+            have := List.count_eq_zero.mpr hcond
+            simp [hloc_s, this]
+          · have hPt : P t := by rcases ht with ht | ht; exact ht; exact absurd ht hts
+            have hc := hI.cnt u t hPt
+            have h2 : (s == t) = false := by simp; exact fun h => hts h.symm
+            by_cases htn : t < w.next
+            · have := hloc_o t htn hts
+              simp [h2, this, hc]
+            · have htn' : w.next ≤ t := by omega
+              have h0 := List.count_eq_zero.mpr (hI.sc.not_mem_ge htn' u)
+              have := hloc_n t htn'
+              simp [h0, h2, this]
         · intro v _ hv
           rw [hfixed] at hv
           rw [hlen, hsize]; exact hI.fx v hv
@@ -430,35 +512,62 @@ theorem setStream_step {nU : Nat} {w w' : SW} {u i s : Nat} (h : w.setStream u i
           rw [hfixed] at hv
           exact absurd hv hfx
 
+theorem setStream_step {nU : Nat} {w w' : SW} {u i s : Nat} (h : w.setStream u i s = .ok w') :
+    Step nU (s < w.next ∧ u < nU) w w' := by
+  have C := setStream_core (nU := nU) All h
+  exact ⟨C.1, fun hp hI ⟨hs, hu⟩ =>
+    (C.2 hp hI hs hu (fun v _ => hI.cnt v s trivial)).mono (fun _ _ => Or.inl trivial)⟩
+
+/-! ## Placeholders: creation and placement -/
+
 theorem Sc.newMissing {nU : Nat} {w : SW} (h : Sc nU w) {u : Nat} (hu : u < nU) :
     Sc nU (w.newMissing u).1 := by
   constructor <;> simp only [SW.newMissing, Side.setLoc]
   · intro v x hx; have := h.lst_lt v x hx; omega
   · intro y hy; have := h.loc_none y; grind
-  · intro y hy; exact h.not_real y (by omega)
   · exact h.lst_nil
   · exact h.fixed_false
   · intro y v; have := h.loc_lt y v; grind
 
-theorem CntAt.newMissing {nU : Nat} {w : SW} (hsc : Sc nU w) {u v : Nat} (h : CntAt w v) :
-    CntAt (w.newMissing u).1 v := by
+/-- Creating a placeholder leaves every *other* object as it was; the new object itself is pending
+(its pointer names `u`, no port holds it yet). -/
+theorem CntAt.newMissing {P : Nat → Prop} {w : SW} {u v : Nat} (h : CntAt P w v) :
+    CntAt (fun t => P t ∧ t ≠ w.next) (w.newMissing u).1 v := by
   intro t ht
-  have ht' : w.real t = true := ht
-  have := h t ht'
-  have := hsc.not_real w.next (Nat.le_refl _)
+  have := h t ht.1
   simp only [SW.newMissing, Side.setLoc]
-  grind
+  simp [ht.2, this]
 
 theorem newMissing_ext (w : SW) (u : Nat) : Ext w (w.newMissing u).1 :=
-  ⟨id, rfl, rfl, rfl, Nat.le_succ _⟩
+  ⟨id, rfl, rfl, Nat.le_succ _⟩
 
-theorem newMissing_step {nU : Nat} (w : SW) (u : Nat) : Step nU (u < nU) w (w.newMissing u).1 :=
-  ⟨newMissing_ext w u, fun _ hI hu =>
-    ⟨fun _ => (hI.cnt _).newMissing hI.sc, hI.fx, hI.sc.newMissing hu⟩⟩
+theorem SInv.newMissing {nU : Nat} {P : Nat → Prop} {w : SW} {u : Nat} (hI : SInv nU P w)
+    (hu : u < nU) : SInv nU (fun t => P t ∧ t ≠ w.next) (w.newMissing u).1 :=
+  ⟨fun _ => (hI.cnt _).newMissing, hI.fx, hI.sc.newMissing hu⟩
 
 @[simp] theorem newMissing_snd (w : SW) (u : Nat) : (w.newMissing u).2 = w.next := rfl
 @[simp] theorem newMissing_next (w : SW) (u : Nat) : (w.newMissing u).1.next = w.next + 1 := rfl
 @[simp] theorem newMissing_lst (w : SW) (u : Nat) : (w.newMissing u).1.sd.lst = w.sd.lst := rfl
+@[simp] theorem newMissing_loc (w : SW) (u : Nat) : (w.newMissing u).1.sd.loc w.next = some u := by
+  simp [SW.newMissing, Side.setLoc]
+
+/-- `seq[i] = <a placeholder just created for this list>`: creation and placement together keep
+the full invariant (this is `seq[i] = None`, and the heart of `remove`, `pop`, `disconnect_*`). -/
+theorem setNone_step {nU : Nat} {w w' : SW} {u i : Nat}
+    (h : (w.newMissing u).1.setStream u i (w.newMissing u).2 = .ok w') : Step nU (u < nU) w w' := by
+  have C := setStream_core (nU := nU) (fun t => All t ∧ t ≠ w.next) h
+  refine ⟨(newMissing_ext w u).trans C.1, fun hp hI hu => ?_⟩
+  have h1 := hI.newMissing (u := u) hu
+  refine (C.2 hp h1 (by simp) hu ?_).mono ?_
+  · intro v hv
+    have hn : w.next ∉ w.sd.lst v := hI.sc.not_mem_ge (Nat.le_refl _) v
+    simp only [newMissing_snd, newMissing_lst, newMissing_loc]
+    rw [List.count_eq_zero.mpr hn]
+    simp; exact fun h => hv h.symm
+  · intro t _
+    by_cases ht : t = w.next
+    · exact Or.inr ht
+    · exact Or.inl ⟨trivial, ht⟩
 
 theorem replace_step {nU : Nat} {w w' : SW} {u s t : Nat} (h : w.replace u s t = .ok w') :
     Step nU (t < w.next ∧ u < nU) w w' := by
@@ -467,11 +576,18 @@ theorem replace_step {nU : Nat} {w w' : SW} {u s t : Nat} (h : w.replace u s t =
   · cases h
   · exact setStream_step h
 
+/-- `seq.replace(s, <a placeholder just created for this list>)`. -/
+theorem replaceNew_step {nU : Nat} {w w' : SW} {u s : Nat}
+    (h : (w.newMissing u).1.replace u s (w.newMissing u).2 = .ok w') : Step nU (u < nU) w w' := by
+  unfold SW.replace at h
+  split at h
+  · cases h
+  · exact setNone_step h
+
 theorem remove_step {nU : Nat} {w w' : SW} {u s : Nat} (h : w.remove u s = .ok w') :
     Step nU (u < nU) w w' := by
   unfold SW.remove at h
-  exact ((newMissing_step w u).trans (replace_step h)).weaken
-    (fun hu => ⟨hu, by simp, hu⟩)
+  exact replaceNew_step h
 
 theorem disconnect_step {nU : Nat} {w w' : SW} {s : Nat} (h : w.disconnect s = .ok w') :
     Step nU True w w' := by
@@ -479,9 +595,8 @@ theorem disconnect_step {nU : Nat} {w w' : SW} {s : Nat} (h : w.disconnect s = .
   split at h
   · cases h; exact ⟨Ext.refl _, fun _ hI _ => hI⟩
   · rename_i v hv
-    refine ⟨((newMissing_step (nU := nU) w v).trans (replace_step h)).ext, fun hp hI _ => ?_⟩
-    exact ((newMissing_step (nU := nU) w v).trans (replace_step h)).inv hp hI
-      ⟨hI.sc.loc_lt s v hv, by simp, hI.sc.loc_lt s v hv⟩
+    have S := replaceNew_step (nU := nU) h
+    exact ⟨S.ext, fun hp hI _ => S.inv hp hI (hI.sc.loc_lt s v hv)⟩
 
 /-! ## `undockAll` -/
 
@@ -505,11 +620,6 @@ theorem disconnect_step {nU : Nat} {w w' : SW} {s : Nat} (h : w.disconnect s = .
   | nil => rfl
   | cons x xs ih => simp [SW.undockAll, ih, SW.undock]
 
-@[simp] theorem undockAll_real (w : SW) (xs : List Nat) : (w.undockAll xs).real = w.real := by
-  induction xs generalizing w with
-  | nil => rfl
-  | cons x xs ih => simp [SW.undockAll, ih, SW.undock]
-
 @[simp] theorem undockAll_pre (w : SW) (xs : List Nat) : (w.undockAll xs).pre = w.pre := by
   induction xs generalizing w with
   | nil => rfl
@@ -529,21 +639,31 @@ theorem Sc.undockAll {nU : Nat} {w : SW} (h : Sc nU w) (xs : List Nat) : Sc nU (
   | cons x xs ih => exact ih (h.undock x)
 
 theorem undockAll_ext (w : SW) (xs : List Nat) : Ext w (w.undockAll xs) :=
-  ⟨by simp, by simp, by simp, by simp, by simp⟩
+  ⟨by simp, by simp, by simp, by simp⟩
 
-theorem mem_loc {w : SW} {u x : Nat} (hc : CntAt w u) (hx : x ∈ w.sd.lst u) (hr : w.real x = true) :
-    w.sd.loc x = some u := by
+theorem mem_loc {P : Nat → Prop} {w : SW} {u x : Nat} (hc : CntAt P w u) (hx : x ∈ w.sd.lst u)
+    (hr : P x) : w.sd.loc x = some u := by
   have := hc x hr
   have := List.count_pos_iff.mpr hx
   grind
 
-theorem cntOff_undockAll {w : SW} {u : Nat} {xs : List Nat} (hI : ∀ v, CntAt w v)
-    (hxs : ∀ x ∈ xs, x ∈ w.sd.lst u) : ∀ v, v ≠ u → CntAt (w.undockAll xs) v := by
+theorem cntOff_undockAll {P : Nat → Prop} {w : SW} {u : Nat} {xs : List Nat} (hI : ∀ v, CntAt P w v)
+    (hxs : ∀ x ∈ xs, x ∈ w.sd.lst u) : ∀ v, v ≠ u → CntAt P (w.undockAll xs) v := by
   intro v hv t ht
-  rw [undockAll_real] at ht
   rw [undockAll_lst, undockAll_loc, hI v t ht]
   by_cases hm : t ∈ xs
   · have := mem_loc (hI u) (hxs t hm) ht
+    grind
+  · simp [hm]
+
+/-- the same when the undocked objects are only known to be docked at `u` -/
+theorem cntOff_undockAll' {P : Nat → Prop} {w : SW} {u : Nat} {xs : List Nat}
+    (hI : ∀ v, v ≠ u → CntAt P w v) (hxs : ∀ x ∈ xs, w.sd.loc x = some u) :
+    ∀ v, v ≠ u → CntAt P (w.undockAll xs) v := by
+  intro v hv t ht
+  rw [undockAll_lst, undockAll_loc, hI v hv t ht]
+  by_cases hm : t ∈ xs
+  · have := hxs t hm
     grind
   · simp [hm]
 
@@ -555,20 +675,19 @@ theorem pop_step {nU : Nat} {w w' : SW} {u i s : Nat} (h : w.pop u i = .ok (w', 
     split at h
     · obtain ⟨w2, hr, h⟩ := bind_ok.mp h
       cases h
-      exact ((newMissing_step w u).trans (replace_step hr)).weaken (fun hu => ⟨hu, by simp, hu⟩)
+      exact replaceNew_step hr
     · rename_i hfx
       cases h
-      refine ⟨⟨id, rfl, rfl, rfl, Nat.le_refl _⟩, fun _ hI hu => ?_⟩
+      refine ⟨⟨id, rfl, rfl, Nat.le_refl _⟩, fun _ hI hu => ?_⟩
       have hxmem : (w.sd.lst u)[i] ∈ w.sd.lst u := List.getElem_mem hi
       apply SInv.setLst (w := w.undock (w.sd.lst u)[i]) (hI.sc.undock _) hu
       · intro x hx
         exact hI.sc.lst_lt u x (List.mem_of_mem_eraseIdx hx)
       · exact cntOff_undockAll (xs := [(w.sd.lst u)[i]]) hI.cnt (by simp)
       · intro t ht
-        have ht' : w.real t = true := ht
         rw [count_eraseIdx_lt hi]
-        have := hI.cnt u t ht'
-        have := mem_loc (hI.cnt u) hxmem
+        have := hI.cnt u t ht
+        have := mem_loc (hI.cnt u) hxmem trivial
         simp only [SW.undock, Side.setLoc]
         grind
       · intro v _ hv; exact hI.fx v hv
@@ -577,36 +696,35 @@ theorem pop_step {nU : Nat} {w w' : SW} {u i s : Nat} (h : w.pop u i = .ok (w', 
 
 /-! ## `insert`, `append`, `extend` -/
 
-theorem SInv.of_eq {nU : Nat} {w w' : SW} (h : SInv nU w) (h1 : w'.sd = w.sd) (h2 : w'.next = w.next)
-    (h3 : w'.real = w.real) : SInv nU w' := by
-  cases w; cases w'; simp only at h1 h2 h3; subst h1 h2 h3
-  exact ⟨h.1, h.2, h.3.of_eq rfl rfl rfl⟩
+theorem SInv.of_eq {nU : Nat} {P : Nat → Prop} {w w' : SW} (h : SInv nU P w) (h1 : w'.sd = w.sd)
+    (h2 : w'.next = w.next) : SInv nU P w' := by
+  cases w; cases w'; simp only at h1 h2; subst h1 h2
+  exact ⟨h.1, h.2, h.3.of_eq rfl rfl⟩
 
 /-- The state after docking `s` at `u` and rebinding the list of `u` to `L l`. -/
 def SW.addOne (w : SW) (u s : Nat) (L : List Nat → List Nat) : SW :=
-  let w : SW := { w with pre := w.pre && (!w.real s || (w.sd.loc s).isNone) }
+  let w : SW := { w with pre := w.pre && (w.sd.loc s).isNone }
   let w1 := (w.undock s).dock u s
   { w1 with sd := w1.sd.setLst u (L (w1.sd.lst u)) }
 
 theorem addOne_step {nU : Nat} {w : SW} {u s : Nat} {L : List Nat → List Nat}
     (hL : ∀ l t, (L l).count t = l.count t + if s = t then 1 else 0) :
     Step nU (s < w.next ∧ u < nU ∧ w.sd.fixed u = false) w (w.addOne u s L) := by
-  refine ⟨⟨fun hp => ?_, rfl, rfl, rfl, Nat.le_refl _⟩, fun hp hI ⟨hs, hu, hfx⟩ => ?_⟩
+  refine ⟨⟨fun hp => ?_, rfl, rfl, Nat.le_refl _⟩, fun hp hI ⟨hs, hu, hfx⟩ => ?_⟩
   · simp only [SW.addOne, SW.dock, SW.undock, Bool.and_eq_true] at hp
     exact hp.1
   · simp only [SW.addOne, SW.dock, SW.undock, Bool.and_eq_true] at hp
-    have hcond : w.real s = true → w.sd.loc s = none := by
-      have := hp.2; intro hr; simpa [hr] using this
+    have hcond : w.sd.loc s = none := by
+      have := hp.2; simpa using this
     have hsc1 : Sc nU ((w.undock s).dock u s) := by
       have := (hI.sc.undock s)
       constructor <;> simp only [SW.dock, SW.undock, Side.setLoc]
       · exact hI.sc.lst_lt
       · intro y hy; have := hI.sc.loc_none y; grind
-      · exact hI.sc.not_real
       · exact hI.sc.lst_nil
       · exact hI.sc.fixed_false
       · intro y v; have := hI.sc.loc_lt y v; grind
-    have key : SInv nU { (w.undock s).dock u s with
+    have key : SInv nU All { (w.undock s).dock u s with
         sd := ((w.undock s).dock u s).sd.setLst u (L (w.sd.lst u)) } := by
       apply SInv.setLst hsc1 hu
       · intro x hx
@@ -617,13 +735,11 @@ theorem addOne_step {nU : Nat} {w : SW} {u s : Nat} {L : List Nat → List Nat}
         simp only [SW.dock, SW.undock]
         grind
       · intro v hv t ht
-        have ht' : w.real t = true := ht
-        have := hI.cnt v t ht'
+        have := hI.cnt v t ht
         simp only [SW.dock, SW.undock, Side.setLoc]
         grind
       · intro t ht
-        have ht' : w.real t = true := ht
-        have := hI.cnt u t ht'
+        have := hI.cnt u t ht
         rw [hL]
         simp only [SW.dock, SW.undock, Side.setLoc]
         grind
@@ -631,7 +747,7 @@ theorem addOne_step {nU : Nat} {w : SW} {u s : Nat} {L : List Nat → List Nat}
       · intro hv
         have : w.sd.fixed u = true := hv
         simp [hfx] at this
-    exact key.of_eq rfl rfl rfl
+    exact key.of_eq rfl rfl
 
 theorem count_insert_at (l : List Nat) (i s t : Nat) :
     (l.take i ++ s :: l.drop i).count t = l.count t + if s = t then 1 else 0 := by
@@ -686,37 +802,59 @@ theorem extend_step {nU : Nat} {w w' : SW} {u : Nat} {ss : List Nat} (h : w.exte
 
 /-! ## `newMissings`, `clear`, `empty` -/
 
-structure MissSpec (w : SW) (n : Nat) (r : SW × List Nat) : Prop where
+/-- `n` placeholders created for the list of `u`: the ids `[next, next + n)`, each with its pointer
+on `u`, not yet in any list. -/
+structure MissSpec (w : SW) (u n : Nat) (r : SW × List Nat) : Prop where
   pre_eq : r.1.pre = w.pre
-  real : r.1.real = w.real
   fixed : r.1.sd.fixed = w.sd.fixed
   size : r.1.sd.size = w.sd.size
-  next : w.next ≤ r.1.next
+  next : r.1.next = w.next + n
   lst : r.1.sd.lst = w.sd.lst
   len : r.2.length = n
-  fresh : ∀ m ∈ r.2, w.next ≤ m ∧ m < r.1.next
-  loc_old : ∀ t, t < w.next → r.1.sd.loc t = w.sd.loc t
+  mem_iff : ∀ m, m ∈ r.2 ↔ (w.next ≤ m ∧ m < w.next + n)
+  nodup : r.2.Nodup
+  loc_eq : ∀ t, r.1.sd.loc t = if w.next ≤ t ∧ t < w.next + n then some u else w.sd.loc t
 
-theorem newMissings_spec (w : SW) (u n : Nat) : MissSpec w n (w.newMissings u n) := by
+theorem newMissings_spec (w : SW) (u n : Nat) : MissSpec w u n (w.newMissings u n) := by
   induction n generalizing w with
-  | zero => exact ⟨rfl, rfl, rfl, rfl, Nat.le_refl _, rfl, rfl, by simp [SW.newMissings], fun _ _ => rfl⟩
+  | zero =>
+    refine ⟨rfl, rfl, rfl, rfl, rfl, rfl, ?_, ?_, ?_⟩
+    · intro m; simp [SW.newMissings]
+    · simp [SW.newMissings]
+    · intro t
+      simp only [SW.newMissings]
+      split
+      · omega
+      · rfl
   | succ n ih =>
     have h := ih (w.newMissing u).1
     simp only [SW.newMissings]
-    refine ⟨h.pre_eq, h.real, h.fixed, h.size, Nat.le_trans (Nat.le_succ _) h.next, h.lst, ?_, ?_, ?_⟩
+    refine ⟨h.pre_eq, h.fixed, h.size, ?_, h.lst, ?_, ?_, ?_, ?_⟩
+    · rw [h.next]; simp; omega
     · simp [h.len]
-    · intro m hm
-      simp only [List.mem_cons] at hm
-      have := h.next
-      have := h.fresh m
-      simp only [newMissing_next, newMissing_snd] at *
+    · intro m
+      simp only [List.mem_cons, h.mem_iff, newMissing_next, newMissing_snd]
+      omega
+    · refine List.nodup_cons.mpr ⟨?_, h.nodup⟩
+      rw [h.mem_iff]; simp only [newMissing_next, newMissing_snd]; omega
+    · intro t
+      rw [h.loc_eq]
+      simp only [SW.newMissing, Side.setLoc]
       grind
-    · intro t ht
-      rw [h.loc_old t (by simp; omega)]
-      simp [SW.newMissing, Side.setLoc]; omega
 
-theorem MissSpec.ext {w : SW} {n : Nat} {r : SW × List Nat} (h : MissSpec w n r) : Ext w r.1 :=
-  ⟨fun hp => by rw [← h.pre_eq]; exact hp, h.real, h.fixed, h.size, h.next⟩
+theorem MissSpec.ext {w : SW} {u n : Nat} {r : SW × List Nat} (h : MissSpec w u n r) : Ext w r.1 :=
+  ⟨fun hp => by rw [← h.pre_eq]; exact hp, h.fixed, h.size, by rw [h.next]; omega⟩
+
+theorem MissSpec.lt {w : SW} {u n : Nat} {r : SW × List Nat} (h : MissSpec w u n r) :
+    ∀ m ∈ r.2, m < r.1.next := by
+  intro m hm; have := (h.mem_iff m).mp hm; rw [h.next]; omega
+
+theorem MissSpec.count {w : SW} {u n : Nat} {r : SW × List Nat} (h : MissSpec w u n r) (t : Nat) :
+    r.2.count t = if w.next ≤ t ∧ t < w.next + n then 1 else 0 := by
+  rw [h.nodup.count]
+  by_cases hm : t ∈ r.2
+  · rw [if_pos hm, if_pos ((h.mem_iff t).mp hm)]
+  · rw [if_neg hm, if_neg (fun hc => hm ((h.mem_iff t).mpr hc))]
 
 theorem Sc.newMissings {nU : Nat} {w : SW} (h : Sc nU w) {u : Nat} (hu : u < nU) (n : Nat) :
     Sc nU (w.newMissings u n).1 := by
@@ -724,19 +862,45 @@ theorem Sc.newMissings {nU : Nat} {w : SW} (h : Sc nU w) {u : Nat} (hu : u < nU)
   | zero => exact h
   | succ n ih => exact ih (h.newMissing hu)
 
-theorem CntAt.newMissings {nU : Nat} {w : SW} (hsc : Sc nU w) {u v : Nat} (hu : u < nU)
-    (h : CntAt w v) (n : Nat) : CntAt (w.newMissings u n).1 v := by
-  induction n generalizing w with
-  | zero => exact h
-  | succ n ih => exact ih (hsc.newMissing hu) (h.newMissing hsc)
-
-theorem newMissings_step {nU : Nat} (w : SW) (u n : Nat) :
-    Step nU (u < nU) w (w.newMissings u n).1 := by
+/-- Away from `u` the new placeholders change nothing. -/
+theorem CntAt.newMissings {nU : Nat} {P : Nat → Prop} {w : SW} (hsc : Sc nU w) {u v : Nat}
+    (hv : v ≠ u) (h : CntAt P w v) (n : Nat) : CntAt P (w.newMissings u n).1 v := by
   have M := newMissings_spec w u n
-  refine ⟨M.ext, fun _ hI hu => ⟨fun v => (hI.cnt v).newMissings hI.sc hu n, ?_, hI.sc.newMissings hu n⟩⟩
-  intro v hv
-  rw [M.fixed] at hv
-  rw [M.lst, M.size]; exact hI.fx v hv
+  intro t ht
+  rw [M.lst, M.loc_eq]
+  by_cases hm : w.next ≤ t ∧ t < w.next + n
+  · rw [if_pos hm, List.count_eq_zero.mpr (hsc.not_mem_ge hm.1 v)]
+    simp; exact fun h => hv h.symm
+  · rw [if_neg hm]; exact h t ht
+
+/-- Appending the new placeholders to a list `L` that accounts for every other object of `u`. -/
+theorem SInv.pad {nU : Nat} {w : SW} {u n : Nat} {L : List Nat} (hsc : Sc nU w) (hu : u < nU)
+    (hL : ∀ x ∈ L, x < w.next)
+    (hoff : ∀ v, v ≠ u → CntAt All w v)
+    (hcu : ∀ t, L.count t = if w.sd.loc t = some u then 1 else 0)
+    (hfx : ∀ v, v ≠ u → w.sd.fixed v = true → (w.sd.lst v).length = w.sd.size v)
+    (hfu : w.sd.fixed u = true → L.length + n = w.sd.size u) :
+    SInv nU All { (w.newMissings u n).1 with
+      sd := (w.newMissings u n).1.sd.setLst u (L ++ (w.newMissings u n).2) } := by
+  have M := newMissings_spec w u n
+  apply SInv.setLst (hsc.newMissings hu n) hu
+  · intro x hx
+    rcases List.mem_append.mp hx with hx | hx
+    · have := hL x hx; rw [M.next]; omega
+    · exact M.lt x hx
+  · intro v hv; exact (hoff v hv).newMissings hsc hv n
+  · intro t _
+    rw [List.count_append, M.count, M.loc_eq]
+    by_cases hm : w.next ≤ t ∧ t < w.next + n
+    · have : t ∉ L := fun hx => by have := hL t hx; omega
+      rw [if_pos hm, if_pos hm, List.count_eq_zero.mpr this]; simp
+    · rw [if_neg hm, if_neg hm, hcu t]; simp
+  · intro v hv hf
+    rw [M.fixed] at hf
+    rw [M.lst, M.size]; exact hfx v hv hf
+  · intro hf
+    rw [M.fixed] at hf
+    rw [List.length_append, M.len, M.size]; exact hfu hf
 
 /-- Undock everything in the list of `u` and refill it with `n` fresh placeholders. -/
 def SW.refill (w : SW) (u n : Nat) : SW :=
@@ -747,33 +911,20 @@ theorem refill_step {nU : Nat} (w : SW) (u n : Nat) :
     Step nU (u < nU ∧ (w.sd.fixed u = true → n = w.sd.size u)) w (w.refill u n) := by
   have M := newMissings_spec (w.undockAll (w.sd.lst u)) u n
   have E := (undockAll_ext w (w.sd.lst u)).trans M.ext
-  refine ⟨⟨E.pre, E.real, E.fixed, E.size, E.next⟩, fun _ hI ⟨hu, hn⟩ => ?_⟩
+  refine ⟨⟨E.pre, E.fixed, E.size, E.next⟩, fun _ hI ⟨hu, hn⟩ => ?_⟩
   have hsc1 := hI.sc.undockAll (w.sd.lst u)
-  have hnr : ∀ t, w.real t = true → t < w.next := by
-    intro t ht; have := hI.sc.not_real t; grind
-  apply SInv.setLst (hsc1.newMissings hu n) hu
-  · intro x hx; exact (M.fresh x hx).2
-  · intro v hv
-    exact (cntOff_undockAll hI.cnt (fun _ h => h) v hv).newMissings hsc1 hu n
-  · intro t ht
-    have ht' : w.real t = true := by rw [M.real, undockAll_real] at ht; exact ht
-    have h0 : List.count t ((w.undockAll (w.sd.lst u)).newMissings u n).2 = 0 := by
-      apply List.count_eq_zero.mpr
-      intro hm
-      have := (M.fresh t hm).1
-      simp only [undockAll_next] at this
-      have := hnr t ht'
-      omega
-    rw [h0, M.loc_old t (by simpa using hnr t ht'), undockAll_loc]
-    have := hI.cnt u t ht'
-    have := @List.count_eq_zero _ _ _ t (w.sd.lst u)
-    grind
-  · intro v _ hv
-    rw [M.fixed, undockAll_fixed] at hv
-    rw [M.lst, M.size, undockAll_lst, undockAll_size]; exact hI.fx v hv
-  · intro hv
-    rw [M.fixed, undockAll_fixed] at hv
-    rw [M.len, M.size, undockAll_size]; exact hn hv
+  have := SInv.pad (n := n) (L := []) hsc1 hu (by simp)
+    (cntOff_undockAll hI.cnt (fun _ h => h))
+    (by
+      intro t
+      rw [undockAll_loc]
+      have := hI.cnt u t trivial
+      have := @List.count_pos_iff _ _ _ t (w.sd.lst u)
+      simp only [List.count_nil]
+      grind)
+    (by intro v _ hv; simp only [undockAll_fixed, undockAll_lst, undockAll_size] at hv ⊢; exact hI.fx v hv)
+    (by intro hv; simp only [undockAll_fixed, undockAll_size] at hv ⊢; simpa using hn hv)
+  simpa [SW.refill] using this
 
 theorem clear_step {nU : Nat} (w : SW) (u : Nat) : Step nU (u < nU) w (w.clear u) := by
   simp only [SW.clear]
@@ -792,51 +943,76 @@ theorem empty_step {nU : Nat} (w : SW) (u : Nat) : Step nU (u < nU) w (w.empty u
 
 /-! ## `asStreams`, `redockAll`, `setStreams` -/
 
-structure AsSpec (nU : Nat) (w : SW) (items : List (Option Nat)) (r : SW × List Nat) : Prop where
+/-- `[_as_stream(i) for i in items]`: the placeholders created for the `None` items are pending —
+their pointer names `u`, they are among the streams to be placed, no list holds them yet. -/
+structure AsSpec (nU : Nat) (w : SW) (u : Nat) (items : List (Option Nat)) (r : SW × List Nat) :
+    Prop where
   pre_eq : r.1.pre = w.pre
-  real : r.1.real = w.real
   fixed : r.1.sd.fixed = w.sd.fixed
   size : r.1.sd.size = w.sd.size
   next : w.next ≤ r.1.next
   lst : r.1.sd.lst = w.sd.lst
   ss_lt : (∀ s, some s ∈ items → s < w.next) → ∀ s ∈ r.2, s < r.1.next
+  loc_old : ∀ t, t < w.next → r.1.sd.loc t = w.sd.loc t
+  fresh : ∀ t, w.next ≤ t → t < r.1.next → r.1.sd.loc t = some u ∧ t ∈ r.2
+  sc : Sc nU w → u < nU → Sc nU r.1
 
 theorem asStreams_spec {nU : Nat} (w : SW) (u : Nat) (items : List (Option Nat)) :
-    AsSpec nU w items (w.asStreams u items) ∧ Step nU (u < nU) w (w.asStreams u items).1 := by
+    AsSpec nU w u items (w.asStreams u items) := by
   induction items generalizing w with
   | nil =>
-    exact ⟨⟨rfl, rfl, rfl, rfl, Nat.le_refl _, rfl, by simp [SW.asStreams]⟩, Ext.refl _, fun _ h _ => h⟩
+    exact ⟨rfl, rfl, rfl, Nat.le_refl _, rfl, by simp [SW.asStreams], fun _ _ => rfl,
+      fun t h1 h2 => by simp only [SW.asStreams] at h2; omega, fun h _ => h⟩
   | cons it items ih =>
     cases it with
     | none =>
       have h := ih (w.newMissing u).1
       simp only [SW.asStreams]
-      refine ⟨⟨h.1.pre_eq, h.1.real, h.1.fixed, h.1.size, Nat.le_trans (Nat.le_succ _) h.1.next,
-        h.1.lst, ?_⟩, ((newMissing_step w u).trans h.2).weaken (fun hu => ⟨hu, hu⟩)⟩
-      intro hs s hm
-      simp only [List.mem_cons] at hm
-      rcases hm with rfl | hm
-      · have := h.1.next; simp only [newMissing_next, newMissing_snd] at *; omega
-      · apply h.1.ss_lt _ s hm
-        intro x hx
-        have := hs x (by simp [hx]); simp; omega
+      refine ⟨h.pre_eq, h.fixed, h.size, Nat.le_trans (Nat.le_succ _) h.next, h.lst, ?_, ?_, ?_, ?_⟩
+      · intro hs s hm
+        simp only [List.mem_cons] at hm
+        rcases hm with rfl | hm
+        · have := h.next; simp only [newMissing_next, newMissing_snd] at *; omega
+        · apply h.ss_lt _ s hm
+          intro x hx
+          have := hs x (by simp [hx]); simp; omega
+      · intro t ht
+        rw [h.loc_old t (by simp; omega)]
+        have : t ≠ w.next := by omega
+        simp [SW.newMissing, Side.setLoc, this]
+      · intro t h1 h2
+        by_cases htn : t = w.next
+        · subst htn
+          rw [h.loc_old _ (by simp)]
+          exact ⟨by simp, by simp⟩
+        · have := h.fresh t (by simp; omega) h2
+          exact ⟨this.1, List.mem_cons_of_mem _ this.2⟩
+      · intro hsc hu; exact h.sc (hsc.newMissing hu) hu
     | some s0 =>
       have h := ih w
       simp only [SW.asStreams]
-      refine ⟨⟨h.1.pre_eq, h.1.real, h.1.fixed, h.1.size, h.1.next, h.1.lst, ?_⟩, h.2⟩
-      intro hs s hm
-      simp only [List.mem_cons] at hm
-      rcases hm with rfl | hm
-      · have := hs s (by simp); have := h.1.next; simp only; omega
-      · exact h.1.ss_lt (fun x hx => hs x (by simp [hx])) s hm
+      refine ⟨h.pre_eq, h.fixed, h.size, h.next, h.lst, ?_, h.loc_old, ?_, h.sc⟩
+      · intro hs s hm
+        simp only [List.mem_cons] at hm
+        rcases hm with rfl | hm
+        · have := hs s (by simp); have := h.next; simp only; omega
+        · exact h.ss_lt (fun x hx => hs x (by simp [hx])) s hm
+      · intro t h1 h2
+        have := h.fresh t h1 h2
+        exact ⟨this.1, List.mem_cons_of_mem _ this.2⟩
+
+theorem AsSpec.ext {nU : Nat} {w : SW} {u : Nat} {items : List (Option Nat)} {r : SW × List Nat}
+    (h : AsSpec nU w u items r) : Ext w r.1 :=
+  ⟨fun hp => by rw [← h.pre_eq]; exact hp, h.fixed, h.size, h.next⟩
 
 structure RedockAllSpec (nU : Nat) (w : SW) (u : Nat) (todo : List Nat) (w' : SW) : Prop where
   sc : Sc nU w'
   lst_u : w'.sd.lst u = w.sd.lst u
   len : ∀ v, (w'.sd.lst v).length = (w.sd.lst v).length
-  loc_in : ∀ t ∈ todo, w.real t = true → w'.sd.loc t = some u
-  loc_out : ∀ t, w.real t = true → t ∉ todo → w'.sd.loc t = w.sd.loc t
-  cntOff : (∀ v, v ≠ u → CntAt w v) → (∀ v, v ≠ u → CntAt w' v)
+  loc_in : ∀ t ∈ todo, w'.sd.loc t = some u
+  loc_out : ∀ t, t < w.next → t ∉ todo → w'.sd.loc t = w.sd.loc t
+  loc_new : ∀ t, w.next ≤ t → w'.sd.loc t ≠ some u
+  cntOff : ∀ P : Nat → Prop, (∀ v, v ≠ u → CntAt P w v) → (∀ v, v ≠ u → CntAt P w' v)
 
 theorem redockAll_ext {w w' : SW} {u : Nat} {todo : List Nat} (h : w.redockAll u todo = .ok w') :
     Ext w w' ∧ w'.pre = w.pre := by
@@ -853,46 +1029,63 @@ theorem redockAll_spec {nU : Nat} {w w' : SW} {u : Nat} {todo : List Nat} (hsc :
     (hs : ∀ s ∈ todo, s < w.next) (hu : u < nU) (h : w.redockAll u todo = .ok w') :
     RedockAllSpec nU w u todo w' := by
   induction todo generalizing w with
-  | nil => cases h; exact ⟨hsc, rfl, fun _ => rfl, by simp, fun _ _ _ => rfl, id⟩
+  | nil =>
+    cases h
+    exact ⟨hsc, rfl, fun _ => rfl, by simp, fun _ _ _ => rfl,
+      fun t ht => by rw [hsc.loc_none t ht]; simp, fun _ => id⟩
   | cons s ss ih =>
     simp only [SW.redockAll] at h
     obtain ⟨w1, hr, h⟩ := bind_ok.mp h
     have R := redock_spec hsc (hs s (by simp)) hu hr
-    have A := ih R.sc (fun x hx => Nat.lt_of_lt_of_le (hs x (by simp [hx])) R.ext.next) h
-    refine ⟨A.sc, A.lst_u.trans R.lst_u, fun v => (A.len v).trans (R.len v), ?_, ?_,
-      fun H => A.cntOff (R.cntOff H)⟩
-    · intro t ht hrt
-      have hrt1 : w1.real t = true := by rw [R.ext.real]; exact hrt
+    have hss1 : ∀ x ∈ ss, x < w1.next :=
+      fun x hx => Nat.lt_of_lt_of_le (hs x (by simp [hx])) R.ext.next
+    have A := ih R.sc hss1 h
+    refine ⟨A.sc, A.lst_u.trans R.lst_u, fun v => (A.len v).trans (R.len v), ?_, ?_, ?_,
+      fun P H => A.cntOff P (R.cntOff P H)⟩
+    · intro t ht
       by_cases hts : t ∈ ss
-      · exact A.loc_in t hts hrt1
-      · rw [A.loc_out t hrt1 hts]
-        simp only [List.mem_cons] at ht
+      · exact A.loc_in t hts
+      · simp only [List.mem_cons] at ht
         rcases ht with rfl | ht
-        · exact R.loc_s
+        · rw [A.loc_out t (Nat.lt_of_lt_of_le (hs t (by simp)) R.ext.next) hts]
+          exact R.loc_s
         · exact absurd ht hts
-    · intro t hrt ht
-      have hrt1 : w1.real t = true := by rw [R.ext.real]; exact hrt
+    · intro t htn ht
       simp only [List.mem_cons, not_or] at ht
-      rw [A.loc_out t hrt1 ht.2, R.loc_other t hrt ht.1]
+      rw [A.loc_out t (Nat.lt_of_lt_of_le htn R.ext.next) ht.2, R.loc_other t htn ht.1]
+    · intro t ht
+      by_cases ht1 : w1.next ≤ t
+      · exact A.loc_new t ht1
+      · have hts : t ∉ ss := fun hm => by have := hs t (by simp [hm]); omega
+        rw [A.loc_out t (by omega) hts]
+        exact R.loc_new t ht
 
-theorem setStreams_core {nU : Nat} {w0 w2 w3 : SW} {u a b' : Nat} {ss : List Nat}
+/-- The heart of slice assignment.  `n0` separates the objects that existed before the supplied
+`None`s were turned into placeholders (`< n0`, consistent everywhere) from those placeholders
+(`[n0, next)`, pending: pointer on `u`, among the supplied, in no list). -/
+theorem setStreams_core {nU : Nat} {w0 w2 w3 : SW} {u a b' n0 : Nat} {ss : List Nat}
     (hab : a ≤ b')
     (hlst_u : w2.sd.lst u = (w0.sd.lst u).take a ++ ss ++ (w0.sd.lst u).drop b')
     (hlst_o : ∀ v, v ≠ u → w2.sd.lst v = w0.sd.lst v)
     (hloc : ∀ t, w2.sd.loc t =
       if t ∈ ((w0.sd.lst u).drop a).take (b' - a) then none else w0.sd.loc t)
-    (hreal : w2.real = w0.real) (hnext : w2.next = w0.next)
+    (hnext : w2.next = w0.next)
     (hfixed : w2.sd.fixed = w0.sd.fixed)
     (h3 : w2.redockAll u ((w0.sd.lst u).take a ++ ss ++ (w0.sd.lst u).drop b') = .ok w3)
-    (hI : SInv nU w0) (hss : ∀ s ∈ ss, s < w0.next) (hu : u < nU)
-    (hnd : (ss.filter w0.real).Nodup)
-    (hnk : ∀ s ∈ ss, w0.real s = true → s ∉ (w0.sd.lst u).take a ++ (w0.sd.lst u).drop b') :
-    Sc nU w3 ∧ (∀ v, v ≠ u → CntAt w3 v) ∧ CntAt w3 u ∧
+    (hn0 : n0 ≤ w0.next)
+    (hI : SInv nU (fun t => t < n0) w0)
+    (hold : ∀ v x, x ∈ w0.sd.lst v → x < n0)
+    (hpend : ∀ t, n0 ≤ t → t < w0.next → w0.sd.loc t = some u ∧ t ∈ ss)
+    (hss : ∀ s ∈ ss, s < w0.next) (hu : u < nU)
+    (hnd : ss.Nodup)
+    (hnk : ∀ s ∈ ss, s ∉ (w0.sd.lst u).take a ++ (w0.sd.lst u).drop b') :
+    Sc nU w3 ∧ (∀ v, v ≠ u → CntAt All w3 v) ∧ CntAt All w3 u ∧
       w3.sd.lst u = (w0.sd.lst u).take a ++ ss ++ (w0.sd.lst u).drop b' ∧
       (∀ v, v ≠ u → (w3.sd.lst v).length = (w0.sd.lst v).length) := by
+  have hold_u := hold u
   generalize hl : w0.sd.lst u = l at *
   have hsplit := split3 l hab
-  have hmem_l : ∀ x ∈ l, x < w0.next := fun x hx => hI.sc.lst_lt u x (hl ▸ hx)
+  have hmem_l : ∀ x ∈ l, x < w0.next := fun x hx => Nat.lt_of_lt_of_le (hold_u x hx) hn0
   have hl'lt : ∀ x ∈ l.take a ++ ss ++ l.drop b', x < w2.next := by
     intro x hx
     rw [hnext]
@@ -908,61 +1101,75 @@ theorem setStreams_core {nU : Nat} {w0 w2 w3 : SW} {u a b' : Nat} {ss : List Nat
       · subst hv; rw [hlst_u] at hx; exact hl'lt x hx
       · rw [hlst_o v hv] at hx; rw [hnext]; exact hI.sc.lst_lt v x hx
     · intro t ht; rw [hloc]; rw [hnext] at ht; have := hI.sc.loc_none t ht; grind
-    · intro t ht; rw [hreal]; rw [hnext] at ht; exact hI.sc.not_real t ht
     · intro v hv; rw [hlst_o v (by omega)]; exact hI.sc.lst_nil v hv
     · intro v hv; rw [hfixed]; exact hI.sc.fixed_false v hv
     · intro t v; rw [hloc]; have := hI.sc.loc_lt t v; grind
   have hmem_rem : ∀ t, t ∈ (l.drop a).take (b' - a) → t ∈ l :=
     fun t ht => List.mem_of_mem_drop (List.mem_of_mem_take ht)
-  have hoff2 : ∀ v, v ≠ u → CntAt w2 v := by
-    intro v hv t ht
-    rw [hreal] at ht
-    rw [hlst_o v hv, hloc, hI.cnt v t ht]
-    by_cases hm : t ∈ (l.drop a).take (b' - a)
-    · have := mem_loc (hI.cnt u) (hl ▸ hmem_rem t hm) ht
-      grind
-    · simp [hm]
+  have hoff2 : ∀ v, v ≠ u → CntAt All w2 v := by
+    intro v hv t _
+    by_cases ht0 : t < n0
+    · rw [hlst_o v hv, hloc, hI.cnt v t ht0]
+      by_cases hm : t ∈ (l.drop a).take (b' - a)
+      · have := mem_loc (hI.cnt u) (hl ▸ hmem_rem t hm) ht0
+        grind
+      · simp [hm]
+    · by_cases ht1 : t < w0.next
+      · have hp := hpend t (by omega) ht1
+        have h1 : t ∉ w0.sd.lst v := fun hm => ht0 (hold v t hm)
+        have h2 : t ∉ (l.drop a).take (b' - a) := fun hm => ht0 (hold_u t (hmem_rem t hm))
+        rw [hlst_o v hv, hloc, if_neg h2, hp.1, List.count_eq_zero.mpr h1]
+        simp; exact fun h => hv h.symm
+      · exact hsc2.cnt_ge (by rw [hnext]; omega) v
   have A := redockAll_spec hsc2 hl'lt hu h3
-  refine ⟨A.sc, A.cntOff hoff2, ?_, A.lst_u.trans hlst_u, fun v hv => by rw [A.len, hlst_o v hv]⟩
-  intro t ht
-  have E := (redockAll_ext h3).1
-  have ht0 : w0.real t = true := by rw [← hreal, ← E.real]; exact ht
-  have ht2 : w2.real t = true := by rw [hreal]; exact ht0
+  refine ⟨A.sc, A.cntOff All hoff2, ?_, A.lst_u.trans hlst_u, fun v hv => by rw [A.len, hlst_o v hv]⟩
+  intro t _
   rw [A.lst_u, hlst_u]
-  have Hc := hI.cnt u t ht0
-  rw [hl] at Hc
   have F1 : l.count t = (l.take a ++ l.drop b').count t + ((l.drop a).take (b' - a)).count t := by
     conv => lhs; rw [hsplit]
     simp only [List.count_append]; omega
   have F2 : (l.take a ++ ss ++ l.drop b').count t = (l.take a ++ l.drop b').count t + ss.count t := by
     simp only [List.count_append]; omega
   by_cases hin : t ∈ l.take a ++ ss ++ l.drop b'
-  · rw [A.loc_in t hin ht2, if_pos rfl, F2]
+  · rw [A.loc_in t hin, if_pos rfl, F2]
     by_cases hts : t ∈ ss
-    · have h1 : ss.count t = 1 := by
-        rw [← List.count_filter (p := w0.real) ht0, hnd.count]
-        simp [hts, ht0]
-      have h2 := List.count_eq_zero.mpr (hnk t hts ht0)
+    · have h1 : ss.count t = 1 := by rw [hnd.count]; simp [hts]
+      have h2 := List.count_eq_zero.mpr (hnk t hts)
       omega
     · have h1 := List.count_eq_zero.mpr hts
       have h2 : t ∈ l.take a ++ l.drop b' := by
         simp only [List.mem_append] at hin ⊢; grind
       have h3 := List.count_pos_iff.mpr h2
+      have htl : t ∈ l := by
+        simp only [List.mem_append] at h2
+        rcases h2 with h2 | h2
+        · exact List.mem_of_mem_take h2
+        · exact List.mem_of_mem_drop h2
+      have Hc := hI.cnt u t (hold_u t htl)
+      rw [hl] at Hc
       have : l.count t ≤ 1 := by rw [Hc]; split <;> omega
       omega
-  · rw [A.loc_out t ht2 hin, hloc, List.count_eq_zero.mpr hin]
-    by_cases hm : t ∈ (l.drop a).take (b' - a)
-    · simp [hm]
-    · simp only [hm, if_false]
-      have h2 : t ∉ l.take a ++ l.drop b' := by
-        simp only [List.mem_append] at hin ⊢; grind
-      have := List.count_eq_zero.mpr h2
-      have := List.count_eq_zero.mpr hm
-      have : l.count t = 0 := by omega
-      rw [this] at Hc
-      split at Hc
-      · omega
-      · rename_i hne; simp [hne]
+  · rw [List.count_eq_zero.mpr hin]
+    have hne : w3.sd.loc t ≠ some u := by
+      by_cases ht2 : w2.next ≤ t
+      · exact A.loc_new t ht2
+      · rw [A.loc_out t (by omega) hin, hloc]
+        by_cases hm : t ∈ (l.drop a).take (b' - a)
+        · simp [hm]
+        · rw [if_neg hm]
+          by_cases ht0 : t < n0
+          · have Hc := hI.cnt u t ht0
+            rw [hl] at Hc
+            have h2 : t ∉ l.take a ++ l.drop b' := by
+              simp only [List.mem_append] at hin ⊢; grind
+            have := List.count_eq_zero.mpr h2
+            have := List.count_eq_zero.mpr hm
+            have : l.count t = 0 := by omega
+            rw [this] at Hc
+            intro hc; rw [if_pos hc] at Hc; omega
+          · have hp := hpend t (by omega) (by omega)
+            exact absurd (by simp only [List.mem_append]; exact Or.inl (Or.inr hp.2)) hin
+    simp [hne]
 
 theorem setStreams_step {nU : Nat} {w w' : SW} {u a b : Nat} {items : List (Option Nat)}
     (h : w.setStreams u a b items = .ok w') :
@@ -976,24 +1183,23 @@ theorem setStreams_step {nU : Nat} {w w' : SW} {u a b : Nat} {items : List (Opti
   have hab : a ≤ max a b := Nat.le_max_left a b
   have E3 := redockAll_ext h3
   have hpre3 := E3.2
-  have hreal3 := E3.1.real
   have hfixed3 := E3.1.fixed
   have hsize3 := E3.1.size
   have hnext3 := E3.1.next
-  simp only [undockAll_pre, undockAll_real, undockAll_fixed, undockAll_size, undockAll_next,
-    Side.setLst] at hpre3 hreal3 hfixed3 hsize3 hnext3
+  simp only [undockAll_pre, undockAll_fixed, undockAll_size, undockAll_next,
+    Side.setLst] at hpre3 hfixed3 hsize3 hnext3
   clear E3
-  have C := fun h1 h2 h3' h4 h5 h6 hI hss hu hnd hnk =>
-    setStreams_core (nU := nU) (w0 := w0) (u := u) (a := a) (b' := max a b) (ss := ss) hab
-      h1 h2 h3' h4 h5 h6 h3 hI hss hu hnd hnk
+  have C := fun h1 h2 h3' h4 h5 hn0 hI hold hpend hss hu hnd hnk =>
+    setStreams_core (nU := nU) (w0 := w0) (u := u) (a := a) (b' := max a b) (n0 := w.next) (ss := ss) hab
+      h1 h2 h3' h4 h5 h3 hn0 hI hold hpend hss hu hnd hnk
   replace C := C (by simp [Side.setLst]) (by intro v hv; simp [Side.setLst, hv])
-    (by intro t; simp only [undockAll_loc, Side.setLst]) (by simp) (by simp) (by simp [Side.setLst])
+    (by intro t; simp only [undockAll_loc, Side.setLst]) (by simp) (by simp [Side.setLst]) AS.next
   clear h3
   have E03 : Ext w0 w3 := ⟨fun hp => by rw [hpre3] at hp; simp only [Bool.and_eq_true] at hp; exact hp.1.1.1,
-    hreal3, hfixed3, hsize3, hnext3⟩
+    hfixed3, hsize3, hnext3⟩
   -- everything that follows from `pre` and the invariant of `w`
-  have key : w3.pre = true → SInv nU w → (∀ s, some s ∈ items → s < w.next) → u < nU →
-      SInv nU w0 ∧ Sc nU w3 ∧ (∀ v, v ≠ u → CntAt w3 v) ∧ CntAt w3 u ∧
+  have key : w3.pre = true → SInv nU All w → (∀ s, some s ∈ items → s < w.next) → u < nU →
+      Fx w0 ∧ Sc nU w3 ∧ (∀ v, v ≠ u → CntAt All w3 v) ∧ CntAt All w3 u ∧
       w3.sd.lst u = List.take a (w0.sd.lst u) ++ ss ++ List.drop (max a b) (w0.sd.lst u) ∧
       (∀ v, v ≠ u → (w3.sd.lst v).length = (w0.sd.lst v).length) ∧
       (w0.sd.fixed u = true → (List.take a (w0.sd.lst u) ++ ss ++ List.drop (max a b) (w0.sd.lst u)).length
@@ -1003,23 +1209,29 @@ theorem setStreams_step {nU : Nat} {w w' : SW} {u a b : Nat} {items : List (Opti
     simp only [Bool.and_eq_true, decide_eq_true_eq, List.all_eq_true, Bool.not_eq_eq_eq_not,
       Bool.not_true, Bool.or_eq_true] at hp
     obtain ⟨⟨⟨hp0, hnd⟩, hnk⟩, hfit⟩ := hp
-    have hI0 := AS.2.inv hp0 hI hu
-    have hss := AS.1.ss_lt hit
-    have := C hI0 hss hu hnd (by
-      intro s hs hrs
-      have := hnk s (by simp [hs, hrs])
+    have hfx0 : Fx w0 := by
+      intro v hv
+      rw [AS.fixed] at hv
+      rw [AS.lst, AS.size]; exact hI.fx v hv
+    have hI0 : SInv nU (fun t => t < w.next) w0 := by
+      refine ⟨fun v t ht => ?_, hfx0, AS.sc hI.sc hu⟩
+      rw [AS.lst, AS.loc_old t ht]; exact hI.cnt v t trivial
+    have hss := AS.ss_lt hit
+    have := C hI0 (by intro v x hx; rw [AS.lst] at hx; exact hI.sc.lst_lt v x hx) AS.fresh hss hu hnd (by
+      intro s hs
+      have := hnk s hs
       simpa using this)
-    refine ⟨hI0, this.1, this.2.1, this.2.2.1, this.2.2.2.1, this.2.2.2.2, ?_⟩
+    refine ⟨hfx0, this.1, this.2.1, this.2.2.1, this.2.2.2.1, this.2.2.2.2, ?_⟩
     intro hfx
     rcases hfit with hfit | hfit
     · simp [hfx] at hfit
     · simp only [List.length_append] at hfit ⊢; omega
   clear C
-  have hfxo : ∀ v, v ≠ u → SInv nU w0 → (∀ v, v ≠ u → (w3.sd.lst v).length = (w0.sd.lst v).length) →
+  have hfxo : ∀ v, v ≠ u → Fx w0 → (∀ v, v ≠ u → (w3.sd.lst v).length = (w0.sd.lst v).length) →
       w3.sd.fixed v = true → (w3.sd.lst v).length = w3.sd.size v := by
-    intro v hv hI0 hlen hf
+    intro v hv hfx0 hlen hf
     rw [hfixed3] at hf
-    rw [hlen v hv, hsize3]; exact hI0.fx v hf
+    rw [hlen v hv, hsize3]; exact hfx0 v hf
   split at h
   · rename_i hc
     cases h
@@ -1027,36 +1239,22 @@ theorem setStreams_step {nU : Nat} {w w' : SW} {u a b : Nat} {items : List (Opti
     generalize hn : w3.sd.size u -
       (List.take a (w0.sd.lst u) ++ ss ++ List.drop (max a b) (w0.sd.lst u)).length = n at *
     have M := newMissings_spec w3 u n
-    have E := (AS.2.ext.trans E03).trans M.ext
-    refine ⟨⟨E.pre, E.real, E.fixed, E.size, E.next⟩, fun hp hI ⟨hit, hu⟩ => ?_⟩
+    have E := (AS.ext.trans E03).trans M.ext
+    refine ⟨⟨E.pre, E.fixed, E.size, E.next⟩, fun hp hI ⟨hit, hu⟩ => ?_⟩
     have hp3 : w3.pre = true := by rw [← M.pre_eq]; exact hp
-    obtain ⟨hI0, hsc3, hoff3, hcu3, hlu3, hlen3, -⟩ := key hp3 hI hit hu
-    apply SInv.setLst (hsc3.newMissings hu n) hu
-    · intro x hx
-      rcases List.mem_append.mp hx with hx | hx
-      · have := hsc3.lst_lt u x (by rw [hlu3]; exact hx)
-        exact Nat.lt_of_lt_of_le this M.next
-      · exact (M.fresh x hx).2
-    · intro v hv; exact (hoff3 v hv).newMissings hsc3 hu n
-    · intro t ht
-      rw [M.real] at ht
-      have htlt : t < w3.next := by have := hsc3.not_real t; grind
-      have h0 : List.count t (w3.newMissings u n).2 = 0 := by
-        apply List.count_eq_zero.mpr
-        intro hm; have := (M.fresh t hm).1; omega
-      rw [List.count_append (l₂ := (w3.newMissings u n).2), h0, M.loc_old t htlt, Nat.add_zero, ← hlu3]
-      exact hcu3 t ht
-    · intro v hv hf
-      rw [M.fixed] at hf
-      rw [M.lst, M.size]; exact hfxo v hv hI0 hlen3 hf
-    · intro _
-      rw [List.length_append (bs := (w3.newMissings u n).2), M.len, M.size]; omega
+    obtain ⟨hfx0, hsc3, hoff3, hcu3, hlu3, hlen3, -⟩ := key hp3 hI hit hu
+    apply SInv.pad hsc3 hu
+    · intro x hx; exact hsc3.lst_lt u x (by rw [hlu3]; exact hx)
+    · exact hoff3
+    · intro t; rw [← hlu3]; exact hcu3 t trivial
+    · intro v hv hf; exact hfxo v hv hfx0 hlen3 hf
+    · intro _; omega
   · rename_i hc
     cases h
     simp only [Bool.and_eq_true, decide_eq_true_eq, not_and, Nat.not_lt] at hc
-    have E := AS.2.ext.trans E03
+    have E := AS.ext.trans E03
     refine ⟨E, fun hp hI ⟨hit, hu⟩ => ?_⟩
-    obtain ⟨hI0, hsc3, hoff3, hcu3, hlu3, hlen3, hfit⟩ := key hp hI hit hu
+    obtain ⟨hfx0, hsc3, hoff3, hcu3, hlu3, hlen3, hfit⟩ := key hp hI hit hu
     refine ⟨fun v => ?_, fun v hf => ?_, hsc3⟩
     · by_cases hv : v = u
       · subst hv; exact hcu3
@@ -1068,6 +1266,6 @@ theorem setStreams_step {nU : Nat} {w w' : SW} {u a b : Nat} {items : List (Opti
         have := hfit hf
         rw [hlu3, hsize3] at *
         omega
-      · exact hfxo v hv hI0 hlen3 hf
+      · exact hfxo v hv hfx0 hlen3 hf
 
 end ThermoVerif.Network
